@@ -345,6 +345,7 @@ pub fn run(_kind: &str, ctx: &Ctx, out: &mut dyn Write) {
             s.push_str(&bytes_block("queries", &content));
             // what the implementation's parser makes of the file
             std::env::remove_var("VERIF_DELAY_SEED");
+            std::env::remove_var("VERIF_DELAY_AT");
             std::env::remove_var("VERIF_DELAY_MAX_US");
             std::env::remove_var("VERIF_EVENT_LOG");
             match guarded(|| ddnnife::parser::parse_queries_file(&qpath)) {
@@ -401,6 +402,14 @@ pub fn run(_kind: &str, ctx: &Ctx, out: &mut dyn Write) {
                             std::env::remove_var("VERIF_DELAY_SEED");
                             std::env::remove_var("VERIF_DELAY_MAX_US");
                         }
+                        // the overtaking file: hold the result of the first expensive query back
+                        // (hook H4c) so that it is overtaken by far more than a thousand later
+                        // results whatever the machine load is
+                        if k == 7 && big && j >= 2 && rep == 0 {
+                            std::env::set_var("VERIF_DELAY_AT", "5:400000");
+                        } else {
+                            std::env::remove_var("VERIF_DELAY_AT");
+                        }
                         std::env::set_var("VERIF_EVENT_LOG", &epath);
                         let sp = spin(spinners);
                         let res = evaluate(&model.ddnnf, op, j, &qpath, timeout);
@@ -435,6 +444,7 @@ pub fn run(_kind: &str, ctx: &Ctx, out: &mut dyn Write) {
         if hung { break; }
     }
     std::env::remove_var("VERIF_DELAY_SEED");
+    std::env::remove_var("VERIF_DELAY_AT");
     std::env::remove_var("VERIF_DELAY_MAX_US");
     std::env::remove_var("VERIF_EVENT_LOG");
     // ---- planted: an operation that panics on one query of the file (first: the file of finding K13)
